@@ -45,6 +45,7 @@
 #include <memory>
 #include <algorithm>
 #include <climits>
+#include <limits>
 
 typedef int64_t i64;
 // view of hv::out whose tag() records each marker once per op line
@@ -196,6 +197,7 @@ struct iface
     virtual i64 virt(i64 raw, i64 cur) = 0;       // the unbounded tick value nearest to cur that the code's value stands for
     virtual i64 raw_time(i64 v) = 0;              // an unbounded tick value as the code's time_t prints
     virtual i64 raw_diff(i64 v) = 0;              // an unbounded difference as the code's difftime_t prints
+    virtual i64 diff_max() = 0;                   // numeric_limits<difftime_t>::max(): "no deadline" of minimal_interval()
 };
 
 template <class Spec> struct impl : iface
@@ -259,6 +261,7 @@ template <class Spec> struct impl : iface
     }
     i64 raw_time(i64 v) override { return (i64)tt(v); }
     i64 raw_diff(i64 v) override { return (i64)(D)v; }
+    i64 diff_max() override { return (i64)std::numeric_limits<D>::max(); }
 };
 typedef igris::timer_spec<uint32_t> spec_u32;
 typedef igris::timer_spec<int32_t> spec_i32;
@@ -341,6 +344,7 @@ static void on_fire(int id)
     iface &t = *w.t;
     ectx &c = w.stack.back();
     int myk = w.k++;
+    if (w.stack.size() > 1) ofail("a callback ran inside an exec() called from a callback (a re-entrant exec must return at once)");
     i64 raw = t.finish(id);
     i64 d = t.virt(raw, c.now);
     ref_unarmed(d, false);
@@ -384,9 +388,10 @@ static void on_fire(int id)
                 ectx n;
                 n.now = a.s;
                 w.stack.push_back(n);
-                w.nested_seen = true;
-                w.maxnow = std::max(w.maxnow, a.s);
+                // (fix-C16: exec() called from a callback returns at once - the running exec picks up what is due;
+                // the reference scheduler does nothing here, any callback made inside is reported by on_fire)
                 o.tag("cb-nested-exec");
+                if (w.ref.pending(id) && w.ref.pend[id].first <= a.s) o.tag("cb-nested-exec-own-timer-still-due");
                 t.exec(a.s);
                 w.stack.pop_back();
                 w.stack.back().cur_id = id;
@@ -505,7 +510,14 @@ static std::string summary(out &o)
     if (e != w.ref.empty()) ofail("empty() differs from the reference");
     if (e == any) ofail("empty() inconsistent with is_planned()");
     s += std::string(" e=") + (e ? "1" : "0") + " m=";
-    if (e) s += "-"; // minimal_interval() on an empty manager is outside the property (reads the list head as a timer)
+    if (e)
+    {
+        // no next deadline: minimal_interval() says "never" = the largest difftime_t (fix-C16; it used to read the list
+        // head as if it were a timer).  Printed as "-" as before.
+        s += "-";
+        i64 m = t.minimal_interval(w.cur);
+        if (m != t.diff_max()) o.fail("minimal_interval() on an empty manager is not numeric_limits<difftime_t>::max()");
+    }
     else
     {
         i64 m = t.minimal_interval(w.cur);
@@ -685,8 +697,8 @@ static void run_op(const std::vector<std::string> &w, const std::string &, hv::o
         W_.cur = I(1);
         bool e = T.empty();
         i64 m = T.minimal_interval(W_.cur);
-        o.result = e ? "fault" : std::to_string(m);
-        if (e) o.fail("minimal_interval() on an empty manager returned " + std::to_string(m) + " (no next deadline exists)");
+        o.result = std::to_string(m);
+        if (e) { if (m != T.diff_max()) o.fail("minimal_interval() on an empty manager returned " + std::to_string(m) + " (no next deadline exists: numeric_limits<difftime_t>::max() expected)"); }
         else if (m != T.raw_diff(W_.ref.earliest() - W_.cur)) ofail("minimal_interval differs from the reference's time to the next deadline");
         o.tag(e ? "qmin-empty" : "qmin");
         return;
@@ -1796,6 +1808,69 @@ static void gen_signed(hv::rng &r, bool th)
     for (int c = 0; c < (th ? 6000 : 400); c++) gen_wrap_case_m(r, "l", r.pick(offs), b64);
 }
 
+// ---------------------------------------------------------------------------
+// round 3: exec() called from callbacks without any precaution (any callback, any time: earlier, the same, later;
+// the calling timer still planned and due) mixed with plan / unplan of itself and of others - a re-entrant exec
+// returns at once (fix-C16), so the history behaves as if those calls were not there
+// ---------------------------------------------------------------------------
+static void gen_nested_directed()
+{
+    emit("reset 2");
+    emit("plan 0 0 5");
+    emit("plan 1 0 6");
+    emit("exec 5 0@0:x5");          // the former finding probe: own timer still at the head
+    emit("exec 6 *@*:x100");        // every callback calls exec with a far later time
+    emit("exec 30 0@*:x30,p1.30.2,x31;1@*:u0,x29");
+    emit("exec 40 -");
+    emit("qmin 40");
+    emit("reset 1");
+    emit("qmin 5");                 // the former finding probe: empty manager
+    emit("plan 0 1 1");
+    emit("qmin 1");
+    emit("unplan 0");
+    emit("qmin 0");
+}
+static void gen_nested_case(hv::rng &r)
+{
+    int n = (int)r.range(1, 4);
+    emit("reset " + S(n));
+    std::vector<i64> ivs = {1, 2, 3, 5, 7};
+    i64 now = r.chance(50) ? 0 : 500;
+    int len = (int)r.range(4, 16);
+    for (int q = 0; q < len; q++)
+    {
+        unsigned c = (unsigned)r.below(100);
+        int i = (int)r.below(n);
+        if (c < 30 || q < 2) emit("plan " + S(i) + " " + S(now - (i64)r.below(3)) + " " + S(r.pick(ivs)));
+        else if (c < 38) emit("unplan " + S(i));
+        else if (c < 44) emit("qmin " + S(now));
+        else
+        {
+            now += r.pick(std::vector<i64>{0, 1, 2, 5, 12, 40});
+            std::string rules;
+            int nr = (int)r.range(1, 3);
+            for (int k = 0; k < nr; k++)
+            {
+                std::string sel = (r.chance(40) ? std::string("*") : S(r.below(n))) + "@" + (r.chance(60) ? std::string("*") : S(r.below(3)));
+                std::string acts;
+                int na = (int)r.range(1, 3);
+                for (int a = 0; a < na; a++)
+                {
+                    if (!acts.empty()) acts += ",";
+                    unsigned m = (unsigned)r.below(100);
+                    int j = (int)r.below(n);
+                    if (m < 50) acts += "x" + S(now + r.pick(std::vector<i64>{-3, 0, 0, 1, 7, 1000}));
+                    else if (m < 70) acts += "u" + S(j);
+                    else acts += "p" + S(j) + "." + S(now - (i64)r.below(2)) + "." + S(r.pick(ivs) + 1); // deadline after now
+                }
+                if (!rules.empty()) rules += ";";
+                rules += sel + ":" + acts;
+            }
+            emit("exec " + S(now) + " " + rules);
+        }
+    }
+}
+
 static void gen_extensions(hv::rng &r, bool th)
 {
     gen_wrap_directed();
@@ -1809,6 +1884,8 @@ static void gen_extensions(hv::rng &r, bool th)
     gen_stimer_wide(r, th ? 3000 : 400);
     gen_stimer_long(r, th);
     gen_signed(r, th);
+    gen_nested_directed();
+    for (int c = 0; c < (th ? 6000 : 600); c++) gen_nested_case(r);
 }
 
 static void gen(hv::rng &r, const std::string &tier)
